@@ -652,6 +652,12 @@ impl Message<PartitionSyncResponse> for PartitionReplicatorActor {
 
                     let tx_id = *commit.transaction_id();
                     let confirmation_count = commit.confirmation_count();
+                    // The commit belongs at the sequence it has on the node that served it. A
+                    // replica whose own log differs there (it coordinated writes itself that
+                    // never reached a quorum) must not take it at another sequence: it would
+                    // carry a quorum count next to a different confirmed transaction.
+                    let expected_partition_sequence =
+                        ExpectedVersion::from_next_version(first.partition_sequence);
                     let tx = Transaction::new(
                         first.partition_key,
                         first.partition_id,
@@ -671,6 +677,7 @@ impl Message<PartitionSyncResponse> for PartitionReplicatorActor {
                             .collect(),
                     )
                     .unwrap()
+                    .expected_partition_sequence(expected_partition_sequence)
                     .with_transaction_id(tx_id)
                     .with_confirmation_count(confirmation_count);
                     match self.write_transaction(tx).await {
